@@ -7,7 +7,7 @@
 import HotXL.Model.Basic
 import HotXL.Model.PyNum
 import HotXL.Model.Dates
-import HotXL.Generated.Tables
+import HotXL.Generated.Operators
 
 namespace HotXL.Ops
 open HotXL
@@ -175,19 +175,21 @@ def applyConv (name : String) (v : Operand) : Conv :=
   | "serialize_date", _ => .err .value
   | _, _ => .bad
 
-/-- the `result` converter: `parse_date(number)` -/
-def applyResult (name : String) (n : Num) : Value :=
+/-- first microsecond after `datetime.max` (10000-01-01T00:00), counted from 1900-01-01 -/
+def usEnd : Int := (Calendar.ordinalOfYMD 10000 1 1 - Dates.ordOf Generated.date1900) * Dates.usPerDay
+
+/-- `parse_date(number)` as a value: `#NUM!` below 0; `none` = OverflowError (beyond year 9999) -/
+def parseDateValue (q : Rat) : Option Value :=
+  match Dates.parseNum q with
+  | some us => if us < usEnd then some (.date us) else none
+  | none => some (.err .num)
+
+/-- the `result` converter; `none` = a raised Python exception -/
+def applyResult (name : String) (n : Num) : Option Value :=
   match name with
-  | "absent" => .num n
-  | "parse_date" =>
-    (match Dates.parseNum (Num.toRat n) with
-     | some us => .date us
-     | none => .err .num)
-  | "serialize_date" =>
-    (match Dates.parseNum (Num.toRat n) with
-     | some us => .num (Dates.serialize us)
-     | none => .err .value)
-  | _ => .other "unmodelled-result-converter"
+  | "absent" => some (.num n)
+  | "parse_date" => parseDateValue (Num.toRat n)
+  | _ => some (.other "unmodelled-result-converter")
 
 def applyOp (op : ArithOp) (a b : Num) : Option Num :=
   match op with
@@ -210,7 +212,9 @@ def arithScalar (op : ArithOp) (l r : Value) : Res :=
     match applyConv lc lo, applyConv rc ro with
     | .num a, .num b =>
       (match applyOp op a b with
-       | some n => .ok (applyResult res n)
+       | some n => (match applyResult res n with
+                    | some v => .ok v
+                    | none => .error .error)
        | none => .ok (.err .div0))
     | _, _ => .error .error       -- operator applied to an error object / None: TypeError
 
@@ -236,6 +240,16 @@ def evalArith (fuel : Nat) (op : ArithOp) (l r : Value) : Res :=
   | none =>
   match isErr r with
   | some e => .ok (.err e)
+  | none =>
+  let oneLeft : Option (Value × Value) := match l, r with
+    | .arr [x], .arr ys => if ys.length ≠ 1 then some (x, .arr ys) else none
+    | _, _ => none
+  match oneLeft with
+  | some (x, r') =>
+    -- a one-element array acts as its element on the left too
+    (match fuel with
+     | 0 => .error .error
+     | f + 1 => evalArith f op x r')
   | none =>
   match l, r with
   | .arr xs, _ =>
